@@ -133,7 +133,7 @@ def gen(t, prop, tier):
     # they are sources and destinations like any other particle
     tagged = (prop == 'C01' and t.bool(0.3))
     for a in range(narr):
-        n = t.wchoice([(0, 1), (1, 1), (2, 1), (5, 2), (12, 3), (40, 4), (90, 2), (150, 1)])
+        n = t.wchoice([(0, 2 if narr > 1 else 1), (1, 1), (2, 1), (5, 2), (12, 3), (40, 4), (90, 2), (150, 1)])
         kind = t.wchoice([('uniform', 5), ('clustered', 3), ('lattice', 3), ('collinear', 1), ('coincident', 1)])
         pts = _gen_points(t, dim, n, scale, origin, kind, hbase)
         rows = []
@@ -170,6 +170,9 @@ def gen(t, prop, tier):
             k = t.wchoice([('move', 5), ('set_h', 2 if not fixed_h else 0), ('add', 3), ('remove', 3), ('toggle_cache', 2),
                            ('reorder', 2), ('noop', 1)])
         a = t.int(0, narr - 1)
+        empties = [i for i, ar in enumerate(arrays) if not ar['pts']]
+        if k == 'add' and empties and t.bool(0.6):
+            a = t.choice(empties)       # an array that was empty when the structure was built gets its first particles
         op = dict(op=k, a=a)
         if k == 'move':
             op['moves'] = [[t.int(0, 200), t.wchoice([('jitter', 5), ('teleport', 2), ('face', 2)]),
@@ -180,12 +183,12 @@ def gen(t, prop, tier):
         elif k == 'add':
             kind = t.choice(['uniform', 'clustered', 'lattice'])
             pts = _gen_points(t, dim, t.int(1, 20), scale, origin, kind, hbase)
-            op['pts'] = [[p[0], p[1], p[2], hbase * (1.0 if hvar == 'const' else t.choice([1.0, 0.7, 1.4])), 0] for p in pts]
+            op['pts'] = [[p[0], p[1], p[2], hbase * (1.0 if hvar == 'const' else t.choice([1.0, 0.7, 1.4, 2.5])), 0] for p in pts]
         elif k == 'remove':
             op['idx'] = [t.int(0, 200) for _ in range(t.int(1, 10))]
         ops.append(op)
     qmodes = [dict(mode=t.wchoice([('cached', 5), ('nocache', 2), ('find_all', 3), ('mixed', 2)]),
-                   ctx=t.wchoice([('explicit', 3), ('implicit', 2)]), order_seed=t.int(0, 1 << 20), sim_tids=int(t.bool(0.5)))
+                   ctx=t.wchoice([('explicit', 3), ('implicit', 3)]), order_seed=t.int(0, 1 << 20), sim_tids=int(t.bool(0.5)))
               for _ in range(len(ops) + 1)]
     sc = dict(dim=dim, cls=cls, knobs=knobs, cache=int(t.bool(0.6)) if cls != 'dbox' else 0, sort_gids=int(t.bool(0.4)), fixed_h=fixed_h,
               radius_scale=t.choice([2.0, 2.0, 3.0, 1.0, 2.5]), nthreads=t.choice([1, 1, 2, 3, 4, 8]),
